@@ -449,14 +449,19 @@ pub fn run_c13(ctx: &Ctx, rep: &mut Report) {
 
 // ---------------------------------------------------------------- C14 -------
 
-/// How many PCM frames more than are written an interrupted encode declares.  Mostly 1000; a
-/// third of the cases declare a total of 2^32 + j blocks (+ 5): the samples still outstanding at the
+/// How many PCM frames more than are written an interrupted encode declares.  Mostly 1000; two
+/// thirds of the cases without a seek table declare a total of 2^32 + j blocks (+ 5): the samples still outstanding at the
 /// j-th frame boundary are then 2^32 (+ 5), values whose low 32 bits are zero / smaller than a
 /// block - the complete frames behind that boundary must be recovered all the same.
 fn declared_surplus(cfg: &EncCfg, frames: usize) -> u64 {
     let bs = cfg.block_size as u64;
     let j = (frames as u64 / bs.max(1)).min(2);
-    match (frames as u64 + bs) % 6 {
+    // (only without a seek table: the placeholder points reserved for 2^32 samples would make the
+    // provisional header hundreds of kilobytes, each byte of which is a crash point)
+    if !matches!(cfg.seek, crate::api::SeekPol::Off) {
+        return 1000;
+    }
+    match (frames as u64 + bs) % 3 {
         0 => (1u64 << 32) + bs * j - frames as u64,
         1 => (1u64 << 32) + bs * j + 5 - frames as u64,
         _ => 1000,
